@@ -774,9 +774,15 @@ def unique_names(ix, R, base):
         if not init:
             continue
         for n in ast.walk(init[0].node):
-            if isinstance(n, ast.Call) and unparse(n.func) == 'super().__init__' and n.args \
-                    and isinstance(n.args[0], ast.Constant):
-                names.setdefault(n.args[0].value, []).append(c)
+            if isinstance(n, ast.Call) and unparse(n.func) == 'super().__init__':
+                # Contribution.__init__(self, name): the name by position or by keyword
+                a0 = n.args[0] if n.args else next((k.value for k in n.keywords if k.arg == 'name'), None)
+                if isinstance(a0, ast.Constant) and isinstance(a0.value, str):
+                    names.setdefault(a0.value, []).append(c)
+                elif a0 is not None and not (isinstance(a0, ast.Name) and a0.id in init[0].params()):
+                    # (a name handed on from the subclass's own parameter is decided at the subclass that fixes it)
+                    R.error('6.names', 'TAB', c.site, 'contribution names are extracted',
+                            'the name %s passes to the base class is %s: not a literal' % (c.name, unparse(a0)[:60]))
     if len(names) < 6:
         R.error('6.names', 'TAB', CD, 'contribution names are extracted', 'only %d found' % len(names))
     for nm, cl in sorted(names.items()):
